@@ -84,7 +84,7 @@ class Batch:
             cmd += ["--budget-s", str(self.budget_s)]
         cmd += list(extra)
         cdir = os.path.join(VERIF, "corpus", self.prop)
-        if os.path.isdir(cdir) and self.prop not in ("C13", "C18") and "--digests" not in extra:
+        if os.path.isdir(cdir) and self.prop not in ("C13", "C18"):
             cmd += ["--corpus", cdir]
         if self.emit_dir:
             f = os.path.join(self.emit_dir, "sc-%s-%d-%d.jsonl" % (self.variant, idx, frm))
